@@ -101,7 +101,8 @@ TKCDone ==
                             (E.ctrIdx # <<>> /\ SelfConsistentState(E.ctrIdx, E.ctrXY, E.asg, E.dist))))
      ELSE Fail(Bad("Stop.guard(stopped although criteria not met)", ~Guard) \cup SameState(E)
                \cup Bad("TwoApprox", (init # <<>>) \/ ctrIdx = <<>> \/ N > 9 \/
-                          (IF metric = "l2sq" THEN MaxD <= 4 * Opt(Len(ctrIdx)) ELSE MaxD <= 2 * Opt(Len(ctrIdx)))))
+                          (Len(ctrIdx) <= N /\      \* (more centers than frames: no optimum to compare with)
+                           (IF metric = "l2sq" THEN MaxD <= 4 * Opt(Len(ctrIdx)) ELSE MaxD <= 2 * Opt(Len(ctrIdx))))))
   /\ Adopt(E)
   /\ cost0' = Cost(E.dist)
   /\ pc' = IF Tr.algo = "hybrid" /\ sweeps > 0 THEN "pam" ELSE "done"
